@@ -25,6 +25,7 @@ func c08Gen(rt *rapid.T) wProg {
 	p.Cfg = wConfig{Users: 4, Root: gPct(rt, 40)}
 	p.Sess = append([]int(nil), gPick(rt, [][]int{{0, 1, 2}, {0, 0, 1, 2}, {0, 1, 1, 2}, {0, 1, 2, 3}}, "layout")...)
 	gGrpc(rt, &p, 15)
+	gLat(rt, &p, 25)
 	isChan := gPct(rt, 30)
 	kind := "new"
 	if isChan {
